@@ -2,7 +2,8 @@
 
 `_MessageSerializer.serialize`, `_MessageSerializer.validate` (eliot/_validation.py), `ErrorExtraction.get_fields_for_exception` and
 `ErrorExtraction.register_exception_extractor` (eliot/_errors.py), each as the list of its statements, normalised by `ast.unparse`
-(docstrings and comments gone, formatting canonical).  `lean/Eliot/Properties/ShapesSkel.lean` fixes them to the shapes
+(docstrings and comments gone, formatting canonical) after alpha-renaming of everything the function binds itself (parameters, locals,
+loop variables, names imported inside), so that neither reformatting nor renaming a local changes the extracted shape.  `lean/Eliot/Properties/ShapesSkel.lean` fixes them to the shapes
 `Model/Sys.lean` (`serializeFields`, `World.getFields` / `firstExtractor`) and `Model/Validation.lean` (`validateMsg`) are written
 after; a source change shows up as a failing `rfl`.  Not a translation into executable definitions (E10, E12-E14 are): a skeleton.
 """
@@ -14,7 +15,75 @@ def q(s):
     return '"' + s.replace("\\", "\\\\").replace('"', '\\"').replace("\n", "\\n") + '"'
 
 
+class _Rename(ast.NodeTransformer):
+    """alpha-renaming of what a function binds itself (parameters other than self / cls, assigned names, loop and `with` targets,
+    `except ... as` names, names imported inside the body, nested function names): v0, v1, ... in order of first binding, so that
+    renaming a local does not change the extracted shape"""
+
+    def __init__(self, fn):
+        self.map = {}
+        for a in fn.args.posonlyargs + fn.args.args + fn.args.kwonlyargs + [x for x in (fn.args.vararg, fn.args.kwarg) if x]:
+            if a.arg not in ("self", "cls", "klass", "_class"):
+                self._bind(a.arg)
+        for n in ast.walk(fn):
+            if isinstance(n, ast.Name) and isinstance(n.ctx, (ast.Store, ast.Del)):
+                self._bind(n.id)
+            elif isinstance(n, ast.ExceptHandler) and n.name:
+                self._bind(n.name)
+            elif isinstance(n, (ast.Import, ast.ImportFrom)):
+                for al in n.names:
+                    self._bind((al.asname or al.name).split(".")[0])
+            elif isinstance(n, (ast.FunctionDef, ast.AsyncFunctionDef)) and n is not fn:
+                self._bind(n.name)
+                for a in n.args.posonlyargs + n.args.args + n.args.kwonlyargs + [x for x in (n.args.vararg, n.args.kwarg) if x]:
+                    if a.arg not in ("self", "cls"):
+                        self._bind(a.arg)
+
+    def _bind(self, name):
+        if name not in self.map:
+            self.map[name] = "v%d" % len(self.map)
+
+    def visit_Name(self, node):
+        if node.id in self.map:
+            node.id = self.map[node.id]
+        return node
+
+    def visit_arg(self, node):
+        if node.arg in self.map:
+            node.arg = self.map[node.arg]
+        return node
+
+    def visit_ExceptHandler(self, node):
+        if node.name in self.map:
+            node.name = self.map[node.name]
+        self.generic_visit(node)
+        return node
+
+    def visit_FunctionDef(self, node):
+        if node.name in self.map:
+            node.name = self.map[node.name]
+        self.generic_visit(node)
+        return node
+
+    def visit_alias(self, node):
+        key = (node.asname or node.name).split(".")[0]
+        if key in self.map:
+            node.asname = self.map[key]
+        return node
+
+    def visit_keyword(self, node):
+        # keyword argument names belong to the callee's interface: kept; `**v` has none
+        self.generic_visit(node)
+        return node
+
+
 def body_strings(fn):
+    import copy
+    fn = copy.deepcopy(fn)
+    r = _Rename(fn)
+    outer = fn.name
+    fn = r.visit(fn)
+    fn.name = outer
     b = list(fn.body)
     if b and isinstance(b[0], ast.Expr) and isinstance(b[0].value, ast.Constant) and isinstance(b[0].value.value, str):
         b = b[1:]
